@@ -312,6 +312,11 @@ class P:
                     e = self.expr()
                     self.take(")")
                     return ("Z", "(%s * 1000000000)" % self.z(e))
+                if val == "Duration" and member in ("from_millis", "from_micros"):
+                    self.take("(")
+                    e = self.expr()
+                    self.take(")")
+                    return ("Z", "(%s * %d)" % (self.z(e), 1000000 if member == "from_millis" else 1000))
                 if val == "Duration" and member == "ZERO":
                     return ("Z", "0")
                 if val == "Duration" and member == "from_nanos":
